@@ -49,6 +49,7 @@ pub struct CrashStats {
 }
 
 pub struct CrashRun {
+    pub growth: Growth,
     pub violation: Option<Violation>,
     /// the history itself broke a rule of another property
     pub foreign: Option<Violation>,
@@ -74,6 +75,7 @@ fn op_at(op_events: &[(u64, u64)], p: u64) -> Option<usize> {
 
 pub fn run_crash(case: &CrashCase, cfg: &CrashCfg) -> CrashRun {
     let mut out = CrashRun {
+        growth: Growth::default(),
         violation: None,
         foreign: None,
         inconclusive: None,
@@ -89,9 +91,11 @@ pub fn run_crash(case: &CrashCase, cfg: &CrashCfg) -> CrashRun {
         release_check: false,
         keep_data: true,
         record_syncs: true,
+        track_growth: true,
         ..SeqCfg::default()
     };
     let run = run_seq(&case.seq, &scfg);
+    out.growth = run.growth.clone();
     out.stats.ops_done = run.stats.ops_done;
     out.stats.requests = run.stats.requests;
     if let Some(m) = run.inconclusive {
